@@ -78,7 +78,7 @@ Viol(pre, a, r, ack, post, diff, dbal, o1, o2, bornNow, overNow) ==
   \* ---- C37 host executes only authorized, atomic transactions ---------------------------------
      { <<"C37", "executed-only-if-every-type-allowed">> : x \in IF Exec /\ ~G_AllAllowed(pre, P.msgs) THEN {1} ELSE {} }
   \cup { <<"C37", "executed-only-if-every-signer-is-the-interchain-account">> : x \in
-           IF Exec /\ ~(G_AllSignedByIca(P.msgs) /\ pre.B.addr[o] = Ica(o)) THEN {1} ELSE {} }
+           IF Exec /\ ~(G_AllSignedByIca(P.msgs) /\ pre.B.addr[o] # "") THEN {1} ELSE {} }
   \cup { <<"C37", "all-effects-present">> : x \in
            IF Exec /\ ~(H.ok /\ post.bal = H.bal /\ post.del = H.del /\ post.wd = H.wd) THEN {1} ELSE {} }
   \cup { <<"C37", "executed-acts-only-for-its-account">> : x \in
